@@ -364,7 +364,7 @@ func (h *harness) judge(rep caseReport, generic string, exp, obs *outcome, t tri
 		}
 		rep.Observed = "load error: " + obs.LoadErr
 		rep.Triggers = t.report()
-		if sig := h.explainLoadError(rep.File, envLeaves, obs.LoadErr, t); sig != "" {
+		if sig := h.explainLoadError(rep.File, envLeaves, obs, t); sig != "" {
 			r.Violation(sig, "load fails because environment variables of a list are dropped ("+rep.Plan+"): "+short(obs.LoadErr, 120), rep)
 			return false
 		}
@@ -433,14 +433,19 @@ func (h *harness) judge(rep caseReport, generic string, exp, obs *outcome, t tri
 // emulating the loss with the real loader: for a list addressed by several variables exactly one
 // variable survives; a variable with a nested key below a new element is dropped. If the emulated
 // load fails with the same error the failure belongs to that defect.
-func (h *harness) explainLoadError(fileYAML string, env []envLeaf, errText string, t triggers) string {
-	if t.none() {
+func (h *harness) explainLoadError(fileYAML string, env []envLeaf, obs *outcome, t triggers) string {
+	if t.none() || len(obs.errLines) == 0 {
 		return ""
 	}
+	// several independent messages may be combined in one error: each must be reproduced
+	missing := map[string]bool{}
+	for _, l := range obs.errLines {
+		missing[l] = true
+	}
 	budget := 80
-	try := func(keep func(e envLeaf) bool) bool {
-		if budget <= 0 {
-			return false
+	try := func(keep func(e envLeaf) bool) {
+		if budget <= 0 || len(missing) == 0 {
+			return
 		}
 		budget--
 		var vars []envVar
@@ -450,8 +455,9 @@ func (h *harness) explainLoadError(fileYAML string, env []envLeaf, errText strin
 			}
 		}
 		h.r.Count("emulation_loads", 1)
-		o := h.w.load(fileYAML, vars)
-		return o.LoadErr == errText
+		for _, l := range h.w.load(fileYAML, vars).errLines {
+			delete(missing, l)
+		}
 	}
 	inGroup := func(e envLeaf) string {
 		pre, n := listPrefix(e.Path)
@@ -463,10 +469,11 @@ func (h *harness) explainLoadError(fileYAML string, env []envLeaf, errText strin
 	for _, s := range env {
 		if g := inGroup(s); g != "" {
 			name := s.Var.Name
-			if try(func(e envLeaf) bool { return inGroup(e) == "" || e.Var.Name == name }) {
-				return sigSiblingsLost
-			}
+			try(func(e envLeaf) bool { return inGroup(e) == "" || e.Var.Name == name })
 		}
+	}
+	if len(missing) == 0 {
+		return sigSiblingsLost
 	}
 	if len(t.sibLists) == 0 {
 		for _, s := range env {
@@ -478,10 +485,11 @@ func (h *harness) explainLoadError(fileYAML string, env []envLeaf, errText strin
 			}
 			if dotted {
 				name := s.Var.Name
-				if try(func(e envLeaf) bool { return e.Var.Name != name }) {
-					return sigNestedKeyLost
-				}
+				try(func(e envLeaf) bool { return e.Var.Name != name })
 			}
+		}
+		if len(missing) == 0 {
+			return sigNestedKeyLost
 		}
 	}
 	return ""
